@@ -24,7 +24,8 @@ func showRels(l []j.Rel) string {
 	return s + "]"
 }
 
-var c16Names = []string{"", "a", "b", "ab", "bc", "c", "a_b", "A", "Ab"}
+// " ": a name made of blanks only is a name like any other (AddRel and Check accept it)
+var c16Names = []string{"", "a", "b", "ab", "bc", "c", "a_b", "A", "Ab", " "}
 
 func c16Laws(x *mc.Exec) {
 	n := len(c16Names)
@@ -468,16 +469,58 @@ func c16Underscore(x *mc.Exec) {
 	}
 }
 
+// c16StringHistory: the name string of a relationship must agree with the one of its inverse whatever other
+// relationships were named before in the same process (a memo keyed ambiguously would go stale). Two two-way
+// relationships whose type+name concatenations coincide (a.bc and ab.c towards the same far end); every ordered
+// sequence of 0..3 String() calls on {x, inverse x, y, inverse y}, then the law is asserted on x or on y. The far
+// end's name is unique per execution so that nothing memoised by an earlier execution is met again.
+func c16StringHistory(x *mc.Exec) {
+	var seq []int
+	n := x.Choose(4, "calls")
+	for i := 0; i < n; i++ {
+		seq = append(seq, x.Choose(4, "call"))
+	}
+	which := x.Choose(2, "asserted on")
+	u := fmt.Sprintf("e%d_%v_%d", n, seq, which)
+	rx := j.Rel{FromType: "a", FromName: "bc", ToOne: true, ToType: "d", ToName: u}
+	ry := j.Rel{FromType: "ab", FromName: "c", ToOne: true, ToType: "d", ToName: u}
+	vals := []j.Rel{rx, rx.Invert(), ry, ry.Invert()}
+	x.R.Add("transitions", 1)
+	x.R.Mark("nontrivial", mc.Hash(u))
+	first := map[int]string{}
+	var sig, fail string
+	p := Try(func() {
+		for _, c := range seq {
+			s := vals[c].String()
+			if f, ok := first[c]; ok && f != s {
+				sig, fail = "C16:string-history:unstable", fmt.Sprintf("String(%s) = %q, earlier %q (calls %v)", showRel(vals[c]), s, f, seq)
+				return
+			}
+			first[c] = s
+		}
+		r := vals[2*which]
+		if a, b := r.String(), r.Invert().String(); a != b {
+			sig, fail = "C16:string-history:asymmetric", fmt.Sprintf("after String() on %v of {x=a.bc, inverse x, y=ab.c, inverse y}: String(%s) = %q but String(inverse) = %q", seq, showRel(r), a, b)
+		}
+	})
+	if p != "" {
+		x.Fail("C16:string-history:panic", "calls %v: %s", seq, p)
+	} else if fail != "" {
+		x.Fail(sig, "%s", fail)
+	}
+}
+
 func init() {
 	Register(&Prop{
 		ID: "C16",
-		Rule: "Engine A: (a) ALL Rel values with FromType, FromName, ToType, ToName in {\"\",a,b,ab,bc,c,a_b,A,Ab} (names whose concatenations and _-joined keys collide or that differ by letter case only) x 4 cardinality pairs = 26244 values, laws asserted directly (involution, idempotence, range, one-way untouched, symmetric Normalize and String for two-way relationships with four non-empty names; self-inverse only with equal cardinalities); (b) every coherent schema over types {a,ab}(,b) and relationship names {x,bx}(,a_x) built slot by slot (absent / one-way to any type / two-way with any later free slot / self-inverse), in three shapes (two types; a single type; halves whose cardinality fields were filled in independently, as BuildType does - pairs then identified by names), every order of AddType, and every map-iteration order of one loop instance inside Rels() (deviation bound 1). (c) one coherent schema built through AddType/AddRel/AddTwoWayRel in every dependency-respecting order of its 5 construction steps with Rels() called after every subset of the steps; the final listing must equal the one of a schema built in one go. Non-trivial = two-way relationship value / schema with at least one two-way pair / every incremental build",
+		Rule: "Engine A: (a) ALL Rel values with FromType, FromName, ToType, ToName in {\"\",a,b,ab,bc,c,a_b,A,Ab,\" \"} (names whose concatenations and _-joined keys collide, that differ by letter case only or consist of a blank) x 4 cardinality pairs = 40000 values, laws asserted directly (involution, idempotence, range, one-way untouched, symmetric Normalize and String for two-way relationships with four non-empty names; self-inverse only with equal cardinalities); (b) every coherent schema over types {a,ab}(,b) and relationship names {x,bx}(,a_x) built slot by slot (absent / one-way to any type / two-way with any later free slot / self-inverse), in three shapes (two types; a single type; halves whose cardinality fields were filled in independently, as BuildType does - pairs then identified by names), every order of AddType, and every map-iteration order of one loop instance inside Rels() (deviation bound 1). (c) one coherent schema built through AddType/AddRel/AddTwoWayRel in every dependency-respecting order of its 5 construction steps with Rels() called after every subset of the steps; the final listing must equal the one of a schema built in one go. (d) every ordered sequence of 0..3 String() calls on two relationships with coinciding type+name concatenations and their inverses, after which the name string of a relationship and of its inverse must still agree (170 histories, names fresh per history). Non-trivial = two-way relationship value / schema with at least one two-way pair / every incremental build",
 		Assumptions: []string{"relationships in the symmetric laws have non-empty FromType, FromName, ToType, ToName (what a schema can hold)", "for pairs whose halves disagree on the cardinality fields, which half's cardinalities the listing shows is not judged"},
 		Harnesses: []Harness{
 			{Name: "C16/laws", Body: c16Laws, ShardDepth: 1},
 			{Name: "C16/rels", Body: c16Rels, Dev: func() int { return 1 }},
 			{Name: "C16/incremental", Body: c16Incremental},
 			{Name: "C16/underscore", Body: c16Underscore},
+			{Name: "C16/string-history", Body: c16StringHistory},
 		},
 	})
 }
